@@ -2,6 +2,7 @@ import Driver.Wire
 import Driver.Spec
 import Driver.Tools
 import Driver.Lazy
+import Driver.Shim
 /-
   csmodel: the executable face of the Lean model.  One request per line on stdin, one reply line
   per request on stdout.  Pure function of its input.
@@ -20,6 +21,7 @@ def respond (line : String) : String :=
     | "S" :: args => cmdS args
     | "T" :: args => cmdT args
     | "L" :: args => cmdL (" ".intercalate args :: rest)
+    | "M" :: args => cmdM args
     | _ => "bad"
 
 partial def loop (hin hout : IO.FS.Stream) : IO Unit := do
